@@ -1577,6 +1577,7 @@ func runC08(c *Ctx) {
 	w.startPositions()
 	w.reloadVariants()
 	w.payloadTrace()
+	w.rawSignaturePhase()
 	nRand, nMixed, nAbrupt, nConc := 60, 40, 2, 2
 	sizes := []int{1 << 20}
 	if c.Thorough() {
